@@ -225,3 +225,12 @@ def finish(res, tier, level, explanation, assumptions, t0, extra_cov=None, rule_
         f"{len(viol)} violations [{tier}]"
     )
     return 1 if viol else 0
+
+
+def ensure_tool_nightly(path, crate_dir):
+    if not os.path.exists(path):
+        r = subprocess.run(["cargo", "+nightly", "build", "--offline"], cwd=crate_dir, stdout=subprocess.PIPE, stderr=subprocess.STDOUT, text=True)
+        if r.returncode != 0:
+            print(r.stdout[-4000:], file=sys.stderr)
+            print(f"verif: cannot build {crate_dir}", file=sys.stderr)
+            sys.exit(2)
